@@ -40,7 +40,7 @@ theorem removeSync_consistent (id : Nat) (s : St R) (hc : Consistent s) (hn : (s
     show (if k = w.node then s.usage k - w.res else s.usage k) = loadL (s.wls.filter (fun x => x.id != id)) k
     rw [← hwid, loadL_remove s.wls w hwm hn k]
     by_cases hk : k = w.node
-    · subst hk; simp only [if_true]; rw [hc k]; rfl
+    · subst hk; simp only [if_true]; rw [hc w.node]; rfl
     · have : ¬ w.node = k := fun h' => hk h'.symm
       simp only [hk, this, if_false]; exact hc k
   · exact hc
@@ -63,9 +63,13 @@ theorem erase_append_self (l : List Nat) (i : Nat) (h : i ∉ l) : (l ++ [i]).er
 theorem lambdaBody_fin_wid (stdin : Bool) (id : Nat) (sc : Script) (b : Bool) :
     (lambdaBody stdin id sc b).2.wid = id ∧ ∀ m ∈ (lambdaBody stdin id sc b).1, m = ⟨id, .data⟩ := by
   unfold lambdaBody
-  cases b <;> simp
-  cases sc.logs <;> simp
-  split <;> simp
-  cases sc.wait <;> simp
+  cases b
+  · simp
+  · cases hl : sc.logs with
+    | none => simp
+    | some k =>
+      by_cases ha : (stdin && !sc.attach) = true
+      · simp [ha]
+      · cases hw : sc.wait <;> simp [ha] <;> intro m _ hm <;> exact hm
 
 end Eru.Cluster2
